@@ -68,7 +68,11 @@ func main() {
 	case "parq":
 		parqMain(os.Args[2:])
 	default:
-		fmt.Fprintln(os.Stderr, "usage: harness gen|run|parq ...")
+		if f, ok := commands[os.Args[1]]; ok { // extra sub-commands registered by a stream file
+			f(os.Args[2:])
+			return
+		}
+		fmt.Fprintln(os.Stderr, "usage: harness gen|run ...")
 		os.Exit(2)
 	}
 }
